@@ -333,7 +333,88 @@ func runC06R3(c *eng.Ctx, r *eng.RuleCtx) {
 		return
 	}
 	startupLoop, enableLoop := startupEl.Stmt, enableEl.Stmt
-	isAdd := func(n *eng.GNode) bool { return len(g.CallsAt(n, isObj(addLast))) > 0 }
+	// Tasks may be queued directly (AddLast in the two loops) or staged: appended to local slices that a final
+	// ascending whole-slice loop queues with AddLast(element). Staging keeps the order when the onStartup tasks and
+	// the enable tasks go into one slice (possibly through copies), or into two that are joined exactly once as
+	// `first = append(first, second...)` with the onStartup slice first.
+	sameSlice := copyAliases(info, f.Decl.Body)
+	var drain *eng.ElemLoop
+	for _, el := range elemLoopsOver(info, f.Decl.Body, func(ast.Expr) bool { return true }) {
+		if el == startupEl || el == enableEl || el.Desc || !loopNoEarlyExit(g, el.Stmt) {
+			continue
+		}
+		el := el
+		if loopBodyMustPass(g, el.Stmt, func(n *eng.GNode) bool {
+			for _, m := range g.CallsAt(n, isObj(addLast)) {
+				if len(m.Call.Args) == 1 && el.IsElem(m.Call.Args[0]) {
+					return true
+				}
+			}
+			return false
+		}) {
+			drain = el
+		}
+	}
+	// a staged add: `S = append(S, x)` with one element; returns the slice variable and the element
+	stagedAdd := func(n *eng.GNode) (types.Object, ast.Expr) {
+		as, ok := n.Node.(*ast.AssignStmt)
+		if !ok || len(as.Lhs) != 1 || len(as.Rhs) != 1 || drain == nil {
+			return nil, nil
+		}
+		ap := builtinCall(info, as.Rhs[0], "append")
+		if ap == nil || len(ap.Args) != 2 || ap.Ellipsis.IsValid() {
+			return nil, nil
+		}
+		sv := eng.SelObj(info, as.Lhs[0])
+		if sv == nil || eng.SelObj(info, ap.Args[0]) != sv {
+			return nil, nil
+		}
+		return sv, ap.Args[1]
+	}
+	// the one join of two staging slices, if any: first = append(first, second...)
+	var joinFirst, joinSecond types.Object
+	var joinNode *eng.GNode
+	njoin := 0
+	for _, n := range g.Nodes {
+		as, ok := n.Node.(*ast.AssignStmt)
+		if !ok || len(as.Lhs) != 1 || len(as.Rhs) != 1 {
+			continue
+		}
+		if ap := builtinCall(info, as.Rhs[0], "append"); ap != nil && len(ap.Args) == 2 && ap.Ellipsis.IsValid() {
+			x, y := eng.SelObj(info, ap.Args[0]), eng.SelObj(info, ap.Args[1])
+			if x != nil && y != nil && eng.SelObj(info, as.Lhs[0]) == x {
+				joinFirst, joinSecond, joinNode = x, y, n
+				njoin++
+			}
+		}
+	}
+	drained := func(sv types.Object) (first, second bool) {
+		if drain == nil || sv == nil {
+			return false, false
+		}
+		base := eng.SelObj(info, drain.Base)
+		if njoin == 0 {
+			return sameSlice(sv, base), false
+		}
+		if njoin == 1 && sameSlice(joinFirst, base) {
+			return sameSlice(sv, joinFirst), sameSlice(sv, joinSecond)
+		}
+		return false, false
+	}
+	staged := false
+	isAdd := func(n *eng.GNode) bool {
+		if len(g.CallsAt(n, isObj(addLast))) > 0 {
+			return drain == nil || eng.LoopOf(f.Decl.Body, n.Node.Pos()) != drain.Stmt
+		}
+		if sv, _ := stagedAdd(n); sv != nil {
+			a, b := drained(sv)
+			if a || b {
+				staged = true
+				return true
+			}
+		}
+		return false
+	}
 	okStartup := !startupEl.Desc && loopNoEarlyExit(g, startupLoop) && loopBodyMustPass(g, startupLoop, isAdd)
 	// the task of the iteration names the hook of the iteration
 	if okStartup {
@@ -357,7 +438,42 @@ func runC06R3(c *eng.Ctx, r *eng.RuleCtx) {
 		k := n.Block.Kind.String()
 		return k == "RangeDone" || k == "ForDone"
 	}
-	r.Check(head2 != nil && g.OnlyVia(head2, isHead1, nil), f.Key+" onStartup-before-enable", enableLoop.Pos(), "the enable loop starts only after the onStartup loop is done", "enable tasks can be queued before (or without) the onStartup tasks")
+	okOrder := head2 != nil && g.OnlyVia(head2, isHead1, nil)
+	if okOrder && staged {
+		// staged: the onStartup tasks are in the slice that comes first, the join (if any) and the draining loop come
+		// after both loops
+		for _, n := range g.Nodes {
+			sv, _ := stagedAdd(n)
+			if sv == nil || n.Node == nil {
+				continue
+			}
+			first, second := drained(sv)
+			switch eng.LoopOf(f.Decl.Body, n.Node.Pos()) {
+			case startupLoop:
+				if !first || (njoin == 1 && second && !sameSlice(joinFirst, joinSecond)) {
+					okOrder = false
+				}
+			case enableLoop:
+				if njoin == 1 && !second && !first {
+					okOrder = false
+				}
+			}
+		}
+		enableDone := func(n *eng.GNode) bool {
+			if n.Node != nil || n.Block.Stmt != enableLoop {
+				return false
+			}
+			k := n.Block.Kind.String()
+			return k == "RangeDone" || k == "ForDone"
+		}
+		if joinNode != nil && !g.OnlyVia(joinNode, enableDone, nil) {
+			okOrder = false
+		}
+		if dh := loopBodyEntryOf(g, drain.Stmt); dh == nil || !g.OnlyVia(dh, enableDone, nil) || (joinNode != nil && !g.OnlyVia(dh, func(n *eng.GNode) bool { return n == joinNode }, nil)) {
+			okOrder = false
+		}
+	}
+	r.Check(okOrder, f.Key+" onStartup-before-enable", enableLoop.Pos(), "the enable loop starts only after the onStartup loop is done", "enable tasks can be queued before (or without) the onStartup tasks")
 	// kubernetes before schedule within an iteration
 	var kubeNode, schedNode *eng.GNode
 	for _, n := range g.Nodes {
@@ -367,6 +483,9 @@ func runC06R3(c *eng.Ctx, r *eng.RuleCtx) {
 		var arg ast.Expr
 		for _, m := range g.CallsAt(n, isObj(addLast)) {
 			arg = m.Call.Args[0]
+		}
+		if _, x := stagedAdd(n); x != nil {
+			arg = x
 		}
 		or := p.Origins(f, arg, 0)
 		// origins are flow-insensitive over variables named alike; use the defining statement in the same block instead
